@@ -79,3 +79,4 @@ package strategy
 //@   at_call bytes.Compare#0 assert compares_previous_with_new: sameSlice(arg0, prevKey) && sameSlice(arg1, itKey)
 //@   at_call strategy.cmpIntegerLittleEndian#0 assert compares_previous_with_new: sameSlice(arg0, prevKey) && sameSlice(arg1, itKey)
 //@   at_call copy#0 assert accepted_keys_strictly_ascend: ghost_itCount >= 2 ==> ghost_loc_ordered == 1
+//@   at_call copy#0 assert remembers_the_whole_key: sameSlice(arg1, itKey) && len(arg0) == len(itKey) && arrayOf(arg0) == arrayOf(prevKey) && offsetOf(arg0) == offsetOf(prevKey) && len(prevKey) == len(itKey)
